@@ -111,6 +111,14 @@ def run(ctx) -> None:
     for short in c05.TOOLS + ["builtins._min_max", "builtins.sorted", "functools.reduce", "heapq._largest"]:
         c05.r05_2(ctx, ctx.unit(short), "R06.6")
     c05.r05_9(ctx, "R06.7")
+    # an error raised by the k-th pull of a source or the k-th call of a callable surfaces in the library
+    # exactly if it surfaces in the counterpart: both run user code equally often (tables of C01/C05, shared)
+    from . import tooltables
+    from .common import Relabel
+    tooltables.tool_tables(ctx, "R06.8")
+    ctx.rule("R06.9", "islice pulls exactly the items itertools.islice pulls (R05.5, shared)")
+    c05.r05_5(Relabel(ctx, "R06.9"))
+    ctx.floor("tool_cells_decided", 120)
     ctx.floor("handlers", 15)
     ctx.floor("aexit_methods", 5)
 
